@@ -855,3 +855,79 @@ func earlyExit(header *ssa.BasicBlock, blocks map[int]bool, fn *ssa.Function) bo
 	}
 	return false
 }
+
+// ---------------------------------------------------------------------------
+// C15, layer F: the key families a function reads and writes, collected by executing it with every repository callee
+// inlined and every loop cut at the invariant "true" (each loop body is explored once from arbitrary state).
+
+func familyEffects(l *Loaded, fn *ssa.Function) (reads, writes map[string]bool, err string) {
+	defer func() {
+		if r := recover(); r != nil {
+			if ee, ok := r.(execError); ok {
+				err = ee.msg
+			} else {
+				err = fmt.Sprintf("engine panic: %v", r)
+			}
+		}
+	}()
+	e := NewEngine(l.prog)
+	sp := &FuncSpec{Name: shortFuncName(fn), Loops: map[string]*LoopSpec{}, NoPanic: map[string]bool{}, Prop: "C15"}
+	x := &Exec{e: e, specs: l.specs, root: sp, rootFn: fn, maxPaths: 20000, inlined: map[string]bool{}, byContract: map[string]bool{}, unmodelled: map[string]bool{}, oblCount: map[string]int{}, usedModels: map[string]string{}}
+	x.quiet = 1
+	x.effectsMode = true
+	st := &State{Heap: map[int]Val{}, Worlds: map[int]map[string]T{0: {}}}
+	x.initGhost(st)
+	fr := &Frame{fn: fn, env: map[ssa.Value]Val{}, loops: map[int]*loopRun{}, spec: sp, loopSet: findLoops(fn)}
+	for _, p := range fn.Params {
+		fr.env[p] = x.havocValLike(st, x.tryZero(st, p.Type()), p.Name(), p.Type())
+		fr.args = append(fr.args, fr.env[p])
+	}
+	st.Frames = []*Frame{fr}
+	x.entry = st.clone()
+	x.tryPath(func() { x.execBlock(st, fr, fn.Blocks[0], nil, func(*State, Val) {}) })
+	return x.famReads, x.famWrites, ""
+}
+
+// derivedFamilies: inverse indexes that InitGenesis rebuilds from other exported families (the delegate-key registry
+// writes the three indexes together: SetDelegateKeys and InitGenesis are their only writers).
+var derivedFamilies = map[string][2]string{"OrchVal": {"ValExt", "ExtOrch"}}
+
+// genesisCoverage: every key family of a module's store is read by its ExportGenesis and written by its InitGenesis.
+func genesisCoverage(l *Loaded, prop string) []*OblReport {
+	var reps []*OblReport
+	for _, mod := range []struct{ name, pkg, store string }{{"mhub2", "/x/mhub2/keeper", "Store"}, {"oracle", "/x/oracle/keeper", "OStore"}} {
+		var exp, imp *ssa.Function
+		for _, sp := range l.spkgs {
+			if sp != nil && strings.HasSuffix(sp.Pkg.Path(), mod.pkg) {
+				exp, imp = sp.Func("ExportGenesis"), sp.Func("InitGenesis")
+			}
+		}
+		if exp == nil || imp == nil {
+			reps = append(reps, &OblReport{Name: fmt.Sprintf("%s/F/genesis/%s/functions", prop, mod.name), Kind: "genesis-coverage", Status: "failed: ExportGenesis / InitGenesis not found", Solver: "effects"})
+			continue
+		}
+		er, _, eerr := familyEffects(l, exp)
+		_, iw, ierr := familyEffects(l, imp)
+		for _, f := range families {
+			if f.Store != mod.store {
+				continue
+			}
+			r1 := &OblReport{Name: fmt.Sprintf("%s/F/genesis/%s/exported/%s", prop, mod.name, f.Name), Kind: "genesis-coverage", Func: exp.String(), Solver: "effects", Status: "discharged"}
+			if eerr != "" {
+				r1.Status = "failed: ExportGenesis could not be analysed: " + eerr
+			} else if src, isDerived := derivedFamilies[f.Name]; isDerived && er[src[0]] && er[src[1]] {
+				r1.Kind = "genesis-coverage: an index derived from " + src[0] + " and " + src[1] + ", which are exported"
+			} else if !er[f.Name] {
+				r1.Status = fmt.Sprintf("failed: ExportGenesis never reads the %s entries (key prefix 0x%02x): they are lost on export", f.Name, f.Prefix)
+			}
+			r2 := &OblReport{Name: fmt.Sprintf("%s/F/genesis/%s/imported/%s", prop, mod.name, f.Name), Kind: "genesis-coverage", Func: imp.String(), Solver: "effects", Status: "discharged"}
+			if ierr != "" {
+				r2.Status = "failed: InitGenesis could not be analysed: " + ierr
+			} else if !iw[f.Name] {
+				r2.Status = fmt.Sprintf("failed: InitGenesis never writes the %s entries (key prefix 0x%02x): they cannot be restored", f.Name, f.Prefix)
+			}
+			reps = append(reps, r1, r2)
+		}
+	}
+	return reps
+}
